@@ -140,6 +140,11 @@ def parse_file(path):
                     kind, k, r2 = rest.split(' ', 2)
                     lab, _, e = r2.partition(':')
                     cur.asserts.setdefault((kind, int(k)), []).append((lab.strip(), e.strip()))
+                elif key == 'ghost':
+                    # ghost <continue|return|break> <ordinal> <statements>   (ghost code right before that statement; may only
+                    # write ghost state - the frame condition of the function under proof would flag anything else)
+                    kind, k, r2 = rest.split(' ', 2)
+                    cur.asserts.setdefault((kind, int(k)), []).append(('@ghost', r2.strip()))
                 elif key == 'loop':
                     k, what, r2 = rest.split(' ', 2)
                     L = cur.loops.setdefault(int(k), {'invariant': [], 'decreases': None, 'assigns': []})
@@ -248,7 +253,8 @@ class SpecHooks:
         out = []
         for f in self.specs_for(cname):
             for (lab, e) in f.asserts.get((kind, k), []):
-                out.append('__CPROVER_assert(%s, "spec.%s#%s");' % (e, cname, lab))
+                if lab == '@ghost': out.append(e + ' /* ghost */')
+                else: out.append('__CPROVER_assert(%s, "spec.%s#%s");' % (e, cname, lab))
         return out
 
     def loop_ghost(self, cname, k):
